@@ -300,6 +300,8 @@ pub fn find_edges<K: SymK, const NN: usize, const L: usize>(lens: [usize; NN]) {
     assert!(n.exts() == g.exts[node] && *n.data() == g.data[node] && n.len() == lens[node]);
     kani::cover!(cntr == 2);
     kani::cover!(cntr == 0 && nib(g.exts[node], dir) != 0);
+    // the same neighbour reached twice from one side (needs a neighbour longer than K+1)
+    kani::cover!(L < 5 || (cntr == 2 && edges[0].0 == edges[1].0));
     core::mem::forget(g);
 }
 
